@@ -3,16 +3,19 @@ C01 / C08, generated tie — the Lean text translated from SCPI_Input of libscpi
 translate/c2lean_parser.py), with its three library calls (scpiParser_detectProgramMessageUnit, SCPI_Parse, SCPI_ErrorPush)
 instantiated by the hand model's functions.  Property theorems only; helper lemmas in ScpiVerif/Lemmas/InputC.lean.
 
-PROVED here for the generated text: the scan loop (`c_input_loop`: equal to the hand model's `inputLoop` for every state
-the loop can be in, every CHECK of the generated code passes - memmove inside the buffer, no conversion wraps -, the emitted
-fuel suffices, position < length afterwards) and the overrun path (`c_overrun_copies_nothing`).  The two remaining paths of
-SCPI_Input (flush; copy + terminate + loop entry) are evaluated on concrete contexts below (kernel-checked examples) and tied
-by the differential correspondence; their general refinement proof is unfinished (notes/EXT_GEN_INPUT_REPORT.md).
+PROVED here for the generated text: the whole function (`c_input_refines`: for every well-formed context whose buffer length
+fits an `int`, every chunk whose length fits an `int` - the empty one, i.e. the flush, and over-long ones included - and
+whatever parser_state holds, the generated SCPI_Input computes what the hand model's `Ctx.input` computes: buffer bytes,
+position, return value, event log and everything the instantiated library functions changed; no CHECK of the generated code
+fails - NUL stores, memcpy and memmove inside the buffer, no signed overflow, no wrapping conversion -, the emitted fuel
+suffices), hence `c_input_wf` (position < length afterwards, C01 `input_wf`) and `c_flush_executes_pending` (C08); the
+pieces it is assembled from: the scan loop (`c_input_loop`) and the overrun path (`c_overrun_copies_nothing`).
 
 This module is an obligation of C01's and C08's check whenever the translator ACCEPTS the current SCPI_Input.
 -/
 import ScpiVerif.Model.Ctx
 import ScpiVerif.Lemmas.InputC
+import ScpiVerif.Lemmas.Chunking
 
 namespace ScpiVerif.Props.C01InputGen
 open ScpiVerif ScpiVerif.Ctx ScpiVerif.Gen.InputC ScpiVerif.Lemmas.InputC
@@ -54,7 +57,67 @@ theorem c_overrun_copies_nothing (cc : CC) (hi : Inv cc) (data : Bytes) (hd : da
 theorem c_inv_of_wf (c : Ctx) (t ht : Int) (h : WF c) (hl : c.bufLen ≤ 2147483647) : Inv (toC c t ht) ∧ toM (toC c t ht) = c :=
   ⟨inv_toC c t ht h hl, toM_toC c t ht⟩
 
-/-! ### concrete runs of the generated SCPI_Input (kernel-evaluated) against the hand model -/
+/-- generated SCPI_Input = hand model `Ctx.input` (the hand model logs the return value as an event): for every well-formed
+context whose buffer length fits an `int`, every chunk whose length fits an `int` (the `len` parameter of the C function) - the
+empty one (flush) and over-long ones included - and whatever parser_state holds; no CHECK fails, the loop does not run out of fuel -/
+theorem c_input_refines (c : Ctx) (data : Bytes) (t ht : Int) (h : WF c) (hl : c.bufLen ≤ 2147483647)
+    (hlen : data.length ≤ 2147483647) :
+    Ctx.input c data = emit (toM (SCPI_Input detectM parseM pushM (toC c t ht) (some data) data.length).1)
+        (.input (SCPI_Input detectM parseM pushM (toC c t ht) (some data) data.length).2) ∧
+    (SCPI_Input detectM parseM pushM (toC c t ht) (some data) data.length).1.ub = false ∧
+    (SCPI_Input detectM parseM pushM (toC c t ht) (some data) data.length).1.outOfFuel = false :=
+  input_refines c data t ht h hl hlen
+
+/-- the same from every state `Inv` describes (what a sequence of calls leaves behind) -/
+theorem c_input_refines_inv (cc : CC) (hi : Inv cc) (data : Bytes) (hlen : data.length ≤ 2147483647) :
+    Ctx.input (toM cc) data = emit (toM (SCPI_Input detectM parseM pushM cc (some data) data.length).1)
+        (.input (SCPI_Input detectM parseM pushM cc (some data) data.length).2) ∧
+    (SCPI_Input detectM parseM pushM cc (some data) data.length).1.ub = false ∧
+    (SCPI_Input detectM parseM pushM cc (some data) data.length).1.outOfFuel = false :=
+  input_refines_inv cc hi data hlen
+
+/-- Props/C01.lean `input_wf` for the generated function: after SCPI_Input on ANY chunk (zero-length and over-long ones
+included) the buffer object has its declared length, position < length, no out-of-bounds access was recorded by the
+instantiated library functions, and no CHECK of the generated text failed -/
+theorem c_input_wf (c : Ctx) (data : Bytes) (t ht : Int) (h : WF c) (hl : c.bufLen ≤ 2147483647)
+    (hlen : data.length ≤ 2147483647) :
+    WF (toM (SCPI_Input detectM parseM pushM (toC c t ht) (some data) data.length).1) ∧
+    (toM (SCPI_Input detectM parseM pushM (toC c t ht) (some data) data.length).1).position <
+      (toM (SCPI_Input detectM parseM pushM (toC c t ht) (some data) data.length).1).bufLen ∧
+    (SCPI_Input detectM parseM pushM (toC c t ht) (some data) data.length).1.ub = false := by
+  have hr := input_refines c data t ht h hl hlen
+  have hw : WF (Ctx.input c data) := Lemmas.Bounds.input_wf c data h
+  rw [hr.1] at hw
+  exact ⟨hw, hw.2.1, hr.2.1⟩
+
+/-- Props/C08.lean `flush_executes_pending` for the generated function: the zero-length call hands exactly the pending
+bytes to SCPI_Parse as one message (which requires the NUL store behind them), empties the buffer and returns its verdict -/
+theorem c_flush_executes_pending (c : Ctx) (t ht : Int) (h : WF c) (hl : c.bufLen ≤ 2147483647) :
+    let r := SCPI_Input detectM parseM pushM (toC c t ht) (some []) 0
+    (toM r.1).position = 0 ∧
+    ((toM r.1).events.drop c.events.length).head? = some (Ev.parseMsg (c.buf.take c.position)) ∧
+    r.1.ub = false := by
+  intro r
+  have hr : Ctx.input c [] = emit (toM r.1) (.input r.2) ∧ r.1.ub = false ∧ r.1.outOfFuel = false :=
+    input_refines c [] t ht h hl (by decide)
+  have hf := Lemmas.Chunking.flush_executes_pending c h
+  simp only at hf
+  rw [hr.1] at hf
+  refine ⟨hf.1, ?_, hr.2.1⟩
+  have h2 := hf.2.1
+  show ((toM r.1).events.drop c.events.length).head? = _
+  have he : (emit (toM r.1) (Ev.input r.2)).events = (toM r.1).events ++ [Ev.input r.2] := rfl
+  rw [he, List.drop_append, List.head?_append] at h2
+  cases hc : ((toM r.1).events.drop c.events.length).head? with
+  | some x => rw [hc] at h2; exact h2
+  | none =>
+    rw [hc] at h2
+    cases hk : (c.events.length - (toM r.1).events.length) with
+    | zero => rw [hk] at h2; simp at h2
+    | succ k => rw [hk] at h2; simp at h2
+
+/-! ### concrete runs of the generated SCPI_Input (kernel-evaluated) against the hand model: one per path of `c_input_refines`
+(fits + scan loop: also `c_input_wf`; overrun; flush: also `c_flush_executes_pending`) -/
 
 /-- 8-byte buffer, one command "A" with a tag-reporting handler, 3 bytes "A\n" + … pending -/
 def ex0 : Ctx := Ctx.init [⟨[65], 1, [.iTag]⟩] [] 8 4 true
@@ -87,6 +150,31 @@ example :
     c1.position = 2 ∧ c1.buf.take 3 = [65, 65, 65] ∧
     obsM (Ctx.input c1 []) = obsM (emit (toM r.1) (.input r.2)) ∧
     (toM r.1).position = 0 ∧ (toM r.1).buf.take 3 = [65, 65, 0] ∧ r.2 = false ∧ r.1.ub = false := by
+  decide +kernel
+
+/-- a sequence of calls (`cstep`: the generated SCPI_Input, the caller appending the return value to the ghost log as the hand
+model does): chunk by chunk the generated function computes the hand model's fold, and `Inv` is kept - in every call no CHECK
+fails and fuel is left -/
+theorem c_inputs_refine (cc : CC) (hi : Inv cc) (chunks : List Bytes) (hl : ∀ d ∈ chunks, d.length ≤ 2147483647) :
+    toM (chunks.foldl cstep cc) = chunks.foldl Ctx.input (toM cc) ∧ Inv (chunks.foldl cstep cc) :=
+  csteps_refine chunks cc hi hl
+
+/-- Props/C01.lean `inputs_wf` for the generated function: along every history of calls the context stays well formed
+(position < length) and nothing undefined happens -/
+theorem c_inputs_wf (c : Ctx) (t ht : Int) (h : WF c) (hb : c.bufLen ≤ 2147483647) (chunks : List Bytes)
+    (hl : ∀ d ∈ chunks, d.length ≤ 2147483647) :
+    WF (toM (chunks.foldl cstep (toC c t ht))) ∧ (chunks.foldl cstep (toC c t ht)).ub = false ∧
+    (chunks.foldl cstep (toC c t ht)).outOfFuel = false :=
+  let h := (csteps_refine chunks (toC c t ht) (inv_toC c t ht h hb) hl).2
+  ⟨h.wf, h.ub, h.oof⟩
+
+-- three calls in a row (a chunk ending inside a message, its completion, a flush): the fold of the generated function against
+-- the hand model's
+example :
+    let chunks : List Bytes := [[65, 10, 65], [10, 65, 65], []]
+    let cc := chunks.foldl cstep (toC ex0 0 0)
+    obsM (toM cc) = obsM (chunks.foldl Ctx.input ex0) ∧ (toM cc).position = 0 ∧ cc.ub = false ∧ cc.outOfFuel = false ∧
+    (toM cc).events.length = 11 := by
   decide +kernel
 
 end ScpiVerif.Props.C01InputGen
